@@ -8,7 +8,7 @@ CONSTANTS
   MaxIds = 30
   MaxReorgs = 2
   MaxResets = 1
-  MaxByz = 2
+  MaxByz = 3
   Variant = "code"
   ProbeHeights = {0, 1, 2, 3, 4, 5, 6, 7, 8, 9, 10, 11, 12, 13, 14, 15, 16, 17, 29, 30, 31, 32, 61, 62, 63, 64, 100, 125, 126, 127, 128, 254, 255, 256, 510, 511, 512, 513, 1000, 1022, 1023, 1024, 2046, 2047, 4094, 4095, 10000, 65534, 65535, 524285, 524286, 524287, 524288, 1048574, 1048575, 1048576, 2000000, 100000000}
   FullChainUpTo = 64
